@@ -448,6 +448,76 @@ pub fn check_split_case(pairs: &[(String, String, u8, u32)], stream: bool, base:
     drop(sb);
 }
 
+/// Archives built entry by entry from full specs (raw name bytes, flag, method, encryption): used for entries the extractor
+/// cannot decode but must still judge by their names, and for names that are not flagged UTF-8.
+/// `expect`: None = the call must fail (an unsafe name is present); Some(tree) = must succeed with exactly this tree
+/// (path -> (is_dir, content)).
+pub fn check_spec_case(spec: &Spec, expect: Option<&BTreeMap<PathBuf, (bool, Vec<u8>)>>, stream: bool, base: &Path, id: u64, st: &mut Stats, order: u64, what: &str) {
+    st.evals += 1;
+    let ex = if stream { "ZipStreamReader::extract" } else { "ZipArchive::extract" };
+    let case = || json!({"spec_case": spec.to_json(), "stream": stream, "what": what});
+    let (sb, target) = match Sandbox::new(base, id) {
+        Ok(x) => x,
+        Err(e) => {
+            st.viol("machinery/sandbox", format!("cannot create sandbox: {e}"), case(), order);
+            return;
+        }
+    };
+    let bytes = build(spec).0;
+    st.distinct_hash(fnv(&bytes) ^ stream as u64);
+    let before = snapshot(&sb.root, Some(&target));
+    let r = guard(|| {
+        if stream {
+            zip::unstable::stream::ZipStreamReader::new(std::io::Cursor::new(&bytes[..])).extract(&target).map_err(|e| e.to_string())
+        } else {
+            zip::ZipArchive::new(std::io::Cursor::new(&bytes[..])).map_err(|e| format!("open: {e}")).and_then(|mut a| a.extract(&target).map_err(|e| e.to_string()))
+        }
+    });
+    let after = snapshot(&sb.root, Some(&target));
+    if before != after {
+        st.class("ESCAPED");
+        st.viol(format!("confinement/{what}/{}", if stream { "stream" } else { "seekable" }), format!("{ex} ({what}) touched the file system outside the target"), case(), order);
+        return;
+    }
+    let res = match r {
+        Err(p) => {
+            st.viol(format!("panic/{what}/{}", panic_site(&p)), format!("{ex} ({what}) panicked: {p}"), case(), order);
+            return;
+        }
+        Ok(r) => r,
+    };
+    match expect {
+        None => {
+            if res.is_ok() {
+                st.class("UNSAFE-ACCEPTED");
+                st.viol(format!("unsafe-name-accepted/{what}/{}", if stream { "stream" } else { "seekable" }), format!("{ex} returned Ok although an entry name is unsafe ({what})"), case(), order);
+            } else {
+                st.class("unsafe-name:error");
+            }
+        }
+        Some(tree) => {
+            if let Err(e) = &res {
+                st.viol(format!("consistent-archive-refused/{what}/{}", if stream { "stream" } else { "seekable" }), format!("{ex} ({what}) failed: {e}"), case(), order);
+                return;
+            }
+            let got = snapshot(&target, None);
+            let mut ok = got.len() == tree.len();
+            for (p, (is_dir, content)) in tree {
+                match got.get(p) {
+                    Some((k, _, _, h)) if (*k == 'd') == *is_dir && (*is_dir || *h == fnv(content)) => {}
+                    _ => ok = false,
+                }
+            }
+            if !ok {
+                st.viol(format!("tree/{what}/{}", if stream { "stream" } else { "seekable" }), format!("{ex} ({what}): the target holds {:?}, expected {:?}", got.keys().collect::<Vec<_>>(), tree.keys().collect::<Vec<_>>()), case(), order);
+            } else {
+                st.class("tree-reproduced");
+            }
+        }
+    }
+    drop(sb);
+}
+
 fn name_shapes() -> Vec<String> {
     let comps = ["a", "b", ".", "..", ""];
     let mut v = vec![];
@@ -495,6 +565,10 @@ fn name_shapes() -> Vec<String> {
 }
 
 fn replay(case: &Value, st: &mut Stats) {
+    if !case["spec_case"].is_null() {
+        crate::diag!("(spec cases are small: re-run the check itself to reproduce this one)");
+        return;
+    }
     if let Some(sp) = case["split"].as_array() {
         let pairs: Vec<(String, String, u8, u32)> = sp
             .iter()
@@ -650,6 +724,43 @@ pub fn run(args: &Args) -> i32 {
         });
         ctx.stats.merge(s);
         ctx.bound("split_names", json!({"names": all, "modes": ["777", "000", "4755"], "pairs": "every ordered pair (local header name, central record name), alone and after an ordinary entry", "oracle": "confinement and no panic"}));
+    }
+    // entries the extractor cannot decode (no password given; a method it does not implement) under unsafe names: the name
+    // decides, the call fails. And names that are not flagged UTF-8 (CP437), with high bytes that happen to be well-formed
+    // UTF-8: one tree, the same under both extractors.
+    {
+        use crate::reference::zipbuild::Enc;
+        let mut st = Stats::default();
+        let mut k = 0u64;
+        for name in ["../escape", "/abs/escape", "a/../../escape"] {
+            for kind in 0..2 {
+                for stream in [false, true] {
+                    let bad = if kind == 0 {
+                        ESpec { name: name.as_bytes().to_vec(), utf8: true, method: 0, content: b"secret".to_vec(), enc: Enc::ZipCrypto { pw: b"pw".to_vec(), infozip: false }, ..Default::default() }
+                    } else {
+                        ESpec { name: name.as_bytes().to_vec(), utf8: true, method: 14, content: vec![], raw_payload: Some(b"\x5d\0\0opaque".to_vec()), ..Default::default() }
+                    };
+                    let spec = Spec { entries: vec![ESpec { name: b"ok.txt".to_vec(), content: b"ok".to_vec(), ..Default::default() }, bad], ..Default::default() };
+                    k += 1;
+                    check_spec_case(&spec, None, stream, base_r, (8 << 40) + k, &mut st, (8 << 40) + k, if kind == 0 { "undecodable(encrypted)+unsafe-name" } else { "undecodable(method 14)+unsafe-name" });
+                }
+            }
+        }
+        for raw in [&b"caf\xC3\xA9.txt"[..], b"d\xC3\xA9/f\xE2\x82\xAC", b"\x80\x81", b"plain"] {
+            for stream in [false, true] {
+                let dec = crate::reference::cp437::decode(raw);
+                let spec = Spec { entries: vec![ESpec { name: raw.to_vec(), utf8: false, method: 8, content: b"cp437-named entry".to_vec(), ext_attr: 0o100640 << 16, ..Default::default() }], ..Default::default() };
+                let mut tree: BTreeMap<PathBuf, (bool, Vec<u8>)> = BTreeMap::new();
+                let comps: Vec<&str> = dec.split('/').collect();
+                for i in 1..comps.len() {
+                    tree.insert(PathBuf::from(comps[..i].join("/")), (true, vec![]));
+                }
+                tree.insert(PathBuf::from(&dec), (false, b"cp437-named entry".to_vec()));
+                k += 1;
+                check_spec_case(&spec, Some(&tree), stream, base_r, (8 << 40) + k, &mut st, (8 << 40) + k, "cp437-name");
+            }
+        }
+        ctx.stats.merge(st);
     }
     // one five-entry tree (70 001-byte and empty files, explicit and implied directories) in all 120 entry orders x 8 archive layouts
     let big = crate::zipapi::content_class(4, args.seed);
